@@ -84,7 +84,8 @@ def coq_gate():
 
 def coq_build():
     """Full .vo build (incremental). Returns (ok, log)."""
-    if not os.path.exists(os.path.join(COQ, "Makefile")):
+    mk, cp = os.path.join(COQ, "Makefile"), os.path.join(COQ, "_CoqProject")
+    if not os.path.exists(mk) or os.path.getmtime(cp) > os.path.getmtime(mk):
         rc, out, _ = sh("coq_makefile -f _CoqProject -o Makefile", cwd=COQ, timeout=120)
         if rc != 0:
             return False, out
